@@ -2,6 +2,7 @@
 from pyvc.contracts import FN, LOOP, LEMMA
 from pyvc.models_time import TimePlugin
 
+DEPENDS = []
 SPEC_MODULES = ("wire", "time")
 PLUGINS = [TimePlugin()]
 
